@@ -823,18 +823,21 @@ func c13ISO(p *core.Program, r *core.Report, envs *ssa.Package, seqs map[string]
 	// order: ISO before environment format
 	if f := envs.Func("DateTimeFromString"); f != nil {
 		var iso, env ssa.Instruction
-		for _, cs := range core.Calls(f, false) {
-			o := core.CalleeObj(cs.Common())
+		for _, ec := range core.EffectiveCalls(f, 2) {
+			o := core.CalleeObj(ec.Inner.Common())
 			if o == nil {
 				continue
 			}
 			switch core.ObjName(o) {
 			case "time.ParseInLocation":
-				if iso == nil {
-					iso = cs.Instr
+				// the ISO attempt, here or in a helper this function calls (then the helper's call stands for it)
+				if iso == nil && (len(ec.Chain) == 0 || !strings.HasSuffix(core.FuncName(ec.Chain[len(ec.Chain)-1]), "parseDate")) {
+					iso = ec.Outer
 				}
 			case "envs.parseDate":
-				env = cs.Instr
+				if len(ec.Chain) == 0 {
+					env = ec.Outer
+				}
 			}
 		}
 		okOrder := false
